@@ -1,7 +1,75 @@
 From Coq Require Import ZArith List Bool.
-From Cspuz Require Import Lib.PyErr Core.Expr Core.Program Graph.GraphModel Graph.VarGroups Graph.VarGroupsPrim.
+From Cspuz Require Import Lib.PyErr Core.Expr Core.Program Graph.GraphModel Graph.VarGroups
+  Graph.VarGroupsPrim Graph.VarGroupsExact Graph.VarGroupsSized Graph.VarGroupsSizedExact
+  Graph.VarGroupsBorders Graph.VarGroupsReflect Graph.VarGroupsFrame Graph.VarGroupsExamples.
 Import ListNotations.
 
+(* division_connected_variable_groups, group_size = None: a partition [blk] of the
+   vertices is realised by the returned ids in some extension of the caller's
+   assignment that satisfies everything the call declared and posted, iff every
+   block induces a connected subgraph.  All multigraphs (parallel edges, self
+   loops), any assignment [en] of the caller's variables, any meaning [gsem] of
+   the native operators. *)
+Theorem vargroups_exact_nosize :
+  forall gsem st g st' ids blk en,
+    wf_graph g = true -> 1 <= nv g ->
+    post_vargroups st g G1None = Ok (st', ids) ->
+    ((exists en', extends_sat gsem st st' en en' /\ ids_realise (nv g) (ids_val gsem en' ids) blk)
+     <-> realisable g blk (fun _ => None)).
+Proof. exact vargroups_exact_nosize_proved. Qed.
+Print Assumptions vargroups_exact_nosize.
+
+(* group_size a per-vertex sequence (list / IntArray1D; the flattened rows or
+   IntArray2D of the grid form): None holes, ints, IntVars, integer expressions
+   over the caller's variables, evaluated to [sval] in the caller's assignment *)
+Theorem vargroups_exact_sized :
+  forall gsem st g sizes st' ids blk en sval,
+    wf_graph g = true -> 1 <= nv g -> length sizes = nv g ->
+    sizes_eval gsem (next_id st) en sizes sval ->
+    post_vargroups st g (G1Seq sizes) = Ok (st', ids) ->
+    ((exists en', extends_sat gsem st st' en en' /\ ids_realise (nv g) (ids_val gsem en' ids) blk)
+     <-> realisable g blk sval).
+Proof. exact vargroups_exact_sized_proved. Qed.
+Print Assumptions vargroups_exact_sized.
+
+(* group_size one int-like object (an int constant, an IntVar, an integer
+   expression over the caller's variables) whose value in the caller's assignment is z *)
+Theorem vargroups_exact_scalar :
+  forall gsem st g e z st' ids blk en,
+    wf_graph g = true -> 1 <= nv g ->
+    valid_scalar e = true -> max_id e <= next_id st -> eval gsem en e = Some (VI z) ->
+    post_vargroups st g (G1Scalar e) = Ok (st', ids) ->
+    ((exists en', extends_sat gsem st st' en en' /\ ids_realise (nv g) (ids_val gsem en' ids) blk)
+     <-> realisable g blk (fun _ => Some z)).
+Proof. exact vargroups_exact_scalar_proved. Qed.
+Print Assumptions vargroups_exact_scalar.
+
+(* _with_borders, non-primitive route: for the is_border pattern [pat] (the values
+   of the caller's is_border items) the constraints are satisfiable iff the
+   components of the graph minus the border edges meet the size condition and
+   every border edge joins two different components *)
+Theorem vargroups_borders_exact :
+  forall gsem st g sizes bd st' en sval pat,
+    wf_graph g = true -> 1 <= nv g -> length sizes = nv g -> length bd = length (edges g) ->
+    sizes_eval gsem (next_id st) en sizes sval ->
+    borders_eval gsem (next_id st) en bd pat ->
+    post_with_borders st g sizes bd false = Ok st' ->
+    ((exists en', extends_sat gsem st st' en en') <-> border_exact g pat sval).
+Proof. exact vargroups_borders_exact_proved. Qed.
+Print Assumptions vargroups_borders_exact.
+
+(* group_size = None: the public wrapper passes [None] * num_vertices *)
+Theorem vargroups_borders_nosize :
+  forall gsem st g bd st' en pat,
+    wf_graph g = true -> 1 <= nv g -> length bd = length (edges g) ->
+    borders_eval gsem (next_id st) en bd pat ->
+    post_with_borders st g (repeat PyNone (nv g)) bd false = Ok st' ->
+    ((exists en', extends_sat gsem st st' en en') <-> border_exact g pat (fun _ => None)).
+Proof. exact vargroups_borders_nosize_proved. Qed.
+Print Assumptions vargroups_borders_nosize.
+
+(* primitive route: one GRAPH_DIVISION node whose operand list decodes to the
+   same graph, sizes and border items *)
 Theorem vargroups_with_borders_primitive :
   forall st g sizes bd,
     length sizes = nv g -> length bd = length (edges g) ->
@@ -9,3 +77,38 @@ Theorem vargroups_with_borders_primitive :
     decode_gdiv (gdiv_operands g sizes bd) = Some (g, sizes, bd).
 Proof. intros; split; [apply post_with_borders_primitive|apply decode_gdiv_operands]; assumption. Qed.
 Print Assumptions vargroups_with_borders_primitive.
+
+(* ... and that node, read with the operator's defined meaning (graph_sem =
+   border_exact_b on the decoded operands), holds exactly when the specification does *)
+Theorem vargroups_primitive_exact :
+  forall g sizes bd en sval pat,
+    wf_graph g = true -> length sizes = nv g -> length bd = length (edges g) ->
+    (forall i, i < length sizes ->
+       match nth i sizes PyNone with
+       | PyNone => sval i = None
+       | e => exists z, eval graph_sem en e = Some (VI z) /\ sval i = Some z
+       end) ->
+    (forall e, e < length bd -> eval graph_sem en (nth e bd PyNone) = Some (VB (pat e))) ->
+    (holds graph_sem en (BNode G_DIV (gdiv_operands g sizes bd)) = true <-> border_exact g pat sval).
+Proof. intros. eapply gdiv_node_holds; eauto. Qed.
+Print Assumptions vargroups_primitive_exact.
+
+(* the executable specifications used by the harness reflect the relational ones *)
+Theorem vargroups_specs_reflect :
+  forall g, wf_graph g = true ->
+    (forall blk sizes, realisable_b g blk sizes = true <-> realisable g blk sizes) /\
+    (forall bd sizes, border_exact_b g bd sizes = true <-> border_exact g bd sizes).
+Proof. intros g H. split; intros; [apply realisable_b_spec|apply border_exact_b_spec]; exact H. Qed.
+Print Assumptions vargroups_specs_reflect.
+
+(* inner-frame form: edge k of the inferred graph joins the two cells the k-th
+   border item lies between (horizontal[y, x] between (y, x) and (y+1, x),
+   vertical[y, x] between (y, x) and (y, x+1)), and the wrapper is the private
+   helper on that graph *)
+Theorem vargroups_frame_layout :
+  forall f,
+    combine (edges (frame_graph f)) (frame_borders f) = frame_layout f /\
+    length (frame_borders f) = length (edges (frame_graph f)) /\
+    nv (frame_graph f) = fh f * fw f.
+Proof. exact frame_layout_spec. Qed.
+Print Assumptions vargroups_frame_layout.
